@@ -4,6 +4,7 @@
 mod common;
 mod strings;
 mod suite_entity;
+mod suite_fclone;
 mod suite_forest;
 mod suite_tree;
 mod tree;
@@ -26,6 +27,7 @@ fn main() {
         "entity" => suite_entity::run(seed, count, tier, &mut sink),
         "tree" => suite_tree::run(seed, count, tier, &mut sink),
         "forest" => suite_forest::run(seed, count, tier, &mut sink),
+        "fclone" => suite_fclone::run(seed, count, tier, &mut sink),
         _ => {
             eprintln!("unknown suite {}", suite);
             std::process::exit(2);
